@@ -37,6 +37,8 @@ DevsFor(ds) ==
   \* cap entries: j = path length; j = 0 is the "tree height = cap height" sub-case (empty Merkle path)
   \cup UNION {{Dev("layer_cap", l, t, j, 1) : j \in {0, 1}, t \in {0, 1}} : l \in Layers}
   \cup {Dev("init_cap", o, t, j, 1) : o \in {Orc[p] : p \in 1..NPolys}, j \in {0, 1}, t \in {0, 2}}
+  \cup {Dev("final_extend", 0, 0, 0, 0), Dev("final_truncate", 0, 0, 0, 0)}
+  \cup {Dev("degree_scaled", 0, 0, e, 0) : e \in 1..RB}
   \cup {Dev("coset_forge", NL - 1, t, 0, d) : t \in SomePos(NL - 1), d \in ds}
   \cup UNION {{Dev("coset_edit", l, t, 0, d) : t \in SomePos(l), d \in ds} : l \in Layers}
   \cup UNION {{Dev("coset_recommit", l, t, 0, d) : t \in SomePos(l), d \in ds} : l \in Layers}
@@ -55,13 +57,18 @@ Devs2(ds) ==
        \cup {Dev("high_degree2", 0, dg, 1, d) : dg \in (n2 + 1)..(LSize(Enter) - 1), d \in ds}
        \cup {Dev("degree_n2", 0, n2, 1, d) : d \in ds}
 
+ExtendAll(p, len, salt) == [k \in 1..len |-> IF k <= Len(p) THEN p[k] ELSE ((k * 7 + salt) % (P - 1)) + 1]
 Instance(ps, bs, dv) ==
-  [polys |-> IF dv.k \in {"high_degree", "degree_n"}
+  [polys |-> IF dv.k = "degree_scaled"
+             THEN [p \in 1..NPolys |-> ExtendAll(PolySets[ps][p], n * 2 ^ dv.j, p)]
+             ELSE IF dv.k \in {"high_degree", "degree_n"}
              THEN [p \in 1..NPolys |-> IF p = dv.j THEN Extend(PolySets[ps][p], dv.t, dv.d) ELSE PolySets[ps][p]]
              ELSE PolySets[ps],
    orc |-> Orc, bat |-> BatSets[bs], dev |-> dv, ps |-> ps, bs |-> bs,
    e |-> Enter, bat2 |-> Bats2,
-   polys2 |-> IF dv.k \in {"high_degree2", "degree_n2"}
+   polys2 |-> IF dv.k = "degree_scaled" /\ Enter > 0
+              THEN [p \in 1..Len(Polys2) |-> ExtendAll(Polys2[p], n2 * 2 ^ dv.j, p + 5)]
+              ELSE IF dv.k \in {"high_degree2", "degree_n2"}
               THEN [p \in 1..Len(Polys2) |-> IF p = dv.j THEN Extend(Polys2[p], dv.t, dv.d) ELSE Polys2[p]]
               ELSE Polys2]
 
